@@ -17,7 +17,7 @@ LEVEL = 'exploration'
 RUNS = {'quick': 3600}
 BUDGET_S = {'thorough': 600}
 TIMEOUT_IS_VIOLATION = True
-RUN_LIMIT_S = 40
+RUN_LIMIT_S = 150
 RULE = ('three workloads, by run index mod 3. log: a well-formed simulated stream is mutated by 1-20 transport faults '
         '(drop, dup, swap, tear, 64 KiB line, 5000-digit number, id 0, hostile look-alike lines, bit flips, inserted/deleted '
         'bytes, invalid UTF-8, NUL, truncation) and fed to main.main in file, pipe (strict and surrogateescape stdin) and run '
